@@ -441,9 +441,68 @@ func (m *Machine) sto(pairs [][2]*T) bool {
 		}
 		return false
 	}
+	// chain lists the variables passed while dereferencing t; occursRaw looks for the variable id in t by identity (a
+	// variable is compared BEFORE it is dereferenced): in another order of steps a variable that is bound by now would
+	// still have been unbound when it met the other side.
+	chain := func(t *T) []int64 {
+		var ids []int64
+		for t.K == term.KVar && len(ids) < 64 {
+			ids = append(ids, t.I)
+			if b, ok := local[t.I]; ok {
+				t = b
+			} else if b, ok := m.bind[t.I]; ok {
+				t = b
+			} else {
+				break
+			}
+		}
+		return ids
+	}
+	var occursRaw func(id int64, t *T) bool
+	occursRaw = func(id int64, t *T) bool {
+		budget--
+		if budget < 0 {
+			return true
+		}
+		for t.K == term.KVar {
+			if t.I == id {
+				return true
+			}
+			if b, ok := local[t.I]; ok {
+				t = b
+			} else if b, ok := m.bind[t.I]; ok {
+				t = b
+			} else {
+				return false
+			}
+		}
+		if t.K == term.KCmp {
+			for _, a := range t.Args {
+				if occursRaw(id, a) {
+					return true
+				}
+			}
+		}
+		return false
+	}
 	for len(pairs) > 0 {
-		a, b := walk(pairs[len(pairs)-1][0]), walk(pairs[len(pairs)-1][1])
+		ra, rb := pairs[len(pairs)-1][0], pairs[len(pairs)-1][1]
+		a, b := walk(ra), walk(rb)
 		pairs = pairs[:len(pairs)-1]
+		if b.K == term.KCmp {
+			for _, id := range chain(ra) {
+				if occursRaw(id, b) {
+					return true
+				}
+			}
+		}
+		if a.K == term.KCmp {
+			for _, id := range chain(rb) {
+				if occursRaw(id, a) {
+					return true
+				}
+			}
+		}
 		if a.K == term.KVar && b.K == term.KVar && a.I == b.I {
 			continue
 		}
